@@ -44,4 +44,11 @@ def check(seed, tier):
         "subpiece steps, copies through registers and temporaries and a stack store followed by a load of the same slot and size; "
         "values around 0o177/0o200/0o777 and the pointer size; parameters in a register, in the low half of a register or on the stack; "
         "a parameter that the block does not compute is not a constant (semantically: its value differs between two unrelated initial states)",
+        "stack-slot shapes: several locals at different offsets, a later store that starts strictly inside / partially overlaps an "
+        "earlier larger slot, loads of the original slot and of sub-ranges; every byte is a constant, so the specification judges the "
+        "parameter by its true concrete value; the generator steers the constants so that a reloaded, partially overwritten slot (which the "
+        "analyzer can only report as unknown) has a true value that needs no warning while the stale element's value would need one",
+        "modelled deviation: the analyzer's interval domain deliberately gives up (Top) on SIGNED OVERFLOW of add/sub/mul/shift-left even "
+        "for constants (e.g. umask((0x7fff..ff << 1) & 0xc4) is not flagged); the generator keeps every add/sub/shift-left step of a "
+        "parameter computation free of signed overflow",
         "exactly one warning is expected per flagged call, none otherwise; a panic is a violation"])
